@@ -1,6 +1,6 @@
 (** Protocol operations for C07 (see Lib/Val.v, Run/PbcmplOps.v). *)
 From Coq Require Import ZArith List Bool String.
-From Low Require Import Lib.BitSeq Lib.Bytes Lib.Val Model.Pbcmpl Model.PbcmplWalk Spec.PbcmplSpec Spec.PbcmplWalkSpec
+From Low Require Import Lib.BitSeq Lib.Bytes Lib.Val Model.Pbcmpl Model.PbcmplWalk Model.PbcmplEncErr Spec.PbcmplSpec Spec.PbcmplWalkSpec
   Run.PbcmplOps Run.PbcmplWalkOps.
 Import ListNotations.
 Open Scope string_scope.
@@ -65,5 +65,19 @@ Definition ops_C07 : list opdef := [
        | [s; pat; tk; wl] => match as_zs s, as_z tk, as_bool wl with
            | Some s, Some tk, Some wl => v_walk_spec s (term_of tk wl)
            | _, _, _ => VBad end
-       | _ => VBad end) |}
+       | _ => VBad end) |};
+  (* widening: [[hasver, ver, payload], [[accept, fail], ...]] with a message whose own Marshal fails
+     -> [n, errclass, bytes that reached the writer, HeaderSize(msg)]; the property's words: count 0, the
+     message's error, nothing written *)
+  {| op_name := "pbcmpl.Marshal/encerr";
+     op_run := fun a => match a with
+       | [m; sc] => match as_msg m, as_script sc with
+           | Some m, Some sc =>
+               match Marshal_opt (fun _ : list Z => None) swrite (sc, []) (snd m) (fst m) with
+               | None => VPanic
+               | Some (n, ec, (_, out)) => VL [VZ n; VZ ec; vzs out; VZ (HeaderSizeOf (snd m))]
+               end
+           | _, _ => VBad end
+       | _ => VBad end;
+     op_spec := fun_spec (fun a => VL [VZ 0; VZ 7; vzs []; VZ 32]) |}
 ].
